@@ -30,3 +30,6 @@ contract(f"{ES}::EpisodeListScheduler.__call__", props=["C04"],
          raises={"KeyError": "True", "TypeError": "True"},
          modifies=["self._exceeded_episode_list"], allocates=True,
          loops={0: {"inv": [], "modifies": ["flat_agents_list[*]"]}})
+
+# "after a reset the environment behaves exactly like a newly constructed one": reset() = build + setup_for_episode, so must be __init__
+scan("C04", "built-games-are-set-up", lambda: scans.built_games_are_set_up())
